@@ -545,6 +545,14 @@ func (ce *cenv) call(x *CExpr) cval {
 	case "lower":
 		a := ev(0)
 		return cval{t: sx("lower", a.t), typ: types.Typ[types.String]}
+	case "bnl":
+		// bnl(b): the text accumulated in the builder b (a *strings.Builder, or a Builder variable / field)
+		// has no line break
+		a := ev(0)
+		if a.typ == nil || !(a.atRef || isPtrType(a.typ)) {
+			return ce.fail("bnl needs a builder variable, field or pointer")
+		}
+		return cval{t: Not(Sel(vc.arrIn(ce.heap, builderArr, builderSort), a.t)), typ: boolT}
 	case "errtext":
 		// the text of an error value (what its Error method returns)
 		a := ev(0)
@@ -732,4 +740,9 @@ func (e *Engine) lookupType(name string) types.Type {
 		t = types.NewPointer(t)
 	}
 	return t
+}
+
+func isPtrType(t types.Type) bool {
+	_, ok := t.Underlying().(*types.Pointer)
+	return ok
 }
